@@ -50,7 +50,19 @@ type c02File struct {
 func c02Payload(seed, n int) []byte {
 	b := make([]byte, n)
 	for j := range b {
-		b[j] = byte((seed + j + (j/256)*13) % 256)
+		if seed >= 1000 {
+			// incompressible: an integer hash of the position (a full block then compresses to a
+			// member longer than BlockSize, up to MaxBlockSize)
+			x := uint32(seed*31 + j)
+			x ^= x >> 16
+			x *= 0x45d9f3b
+			x ^= x >> 16
+			x *= 0x45d9f3b
+			x ^= x >> 16
+			b[j] = byte(x)
+		} else {
+			b[j] = byte((seed + j + (j/256)*13) % 256)
+		}
 	}
 	return b
 }
@@ -223,9 +235,15 @@ func genC02File(rnd *Rand) *c02File {
 			case x < 13 && big < 3:
 				b.Kind, b.Len = "data", bgzf.BlockSize
 				big++
+				if rnd.coin(1, 2) {
+					b.Seed += 1000 // incompressible content
+				}
 			case x < 14 && big < 3:
 				b.Kind, b.Len = "data", bgzf.BlockSize-1
 				big++
+				if rnd.coin(1, 2) {
+					b.Seed += 1000
+				}
 			case x < 17:
 				b.Kind, b.Len = "data", rnd.rng(3, 40)
 			default:
@@ -486,8 +504,19 @@ const c02OpTimeout = 10 * time.Second
 
 // runC02 runs one history on the implementation, judges every operation with the flat oracle and
 // returns the per-operation result strings in the model's format.
+// c02Hangs counts histories on which a call did not return. Every such history costs a full watchdog
+// period and leaves goroutines behind, so after a few of them the remaining histories of the same
+// read-ahead mode are skipped: the failing inputs are already recorded.
+var c02Hangs = map[string]int{}
+
+const c02MaxHangs = 5
+
 func runC02(c *ctx, f *c02File, ops []c02Op, rd int, slow bool, procs int) []string {
 	r := c.res
+	if hm := fmt.Sprintf("rd%d", rd); c02Hangs[hm] >= c02MaxHangs {
+		r.hist("skipped-after-" + fmt.Sprint(c02MaxHangs) + "-hangs." + hm)
+		return nil
+	}
 	in := func() c02Input { return c02Input{File: c02File{Blocks: f.Blocks}, Ops: ops, Rd: rd, Slow: slow, Procs: procs} }
 	mode := fmt.Sprintf("rd%d", rd)
 	if rd > 1 || rd == 0 {
@@ -549,6 +578,7 @@ func runC02(c *ctx, f *c02File, ops []c02Op, rd int, slow bool, procs int) []str
 		what := fmt.Sprintf("op %d (%s)", k, op.model())
 		if o.timedOut {
 			r.fail("c02.hang."+op.Kind+"."+mode, what+" did not return within the watchdog time", in())
+			c02Hangs[fmt.Sprintf("rd%d", rd)]++
 			return out // the reader is stuck; its goroutines are abandoned
 		}
 		if o.panicked {
@@ -624,6 +654,7 @@ func runC02(c *ctx, f *c02File, ops []c02Op, rd int, slow bool, procs int) []str
 	o = guardTimeout(c02OpTimeout, func() { cerr = bg.Close() })
 	if o.timedOut {
 		r.fail("c02.hang.Close."+mode, "Close did not return", in())
+		c02Hangs[fmt.Sprintf("rd%d", rd)]++
 	} else if o.panicked {
 		r.fail("panic:"+topRepoFrame(o.stack), "Close: "+o.panicVal, in())
 	} else if cerr != nil {
